@@ -355,9 +355,16 @@ def c13(tr, viol):
     had_conn = set()
     closed = set()
     sec = secondary_conns(tr)
+    foreign = set()        # peers named by a CEA received on a connection dialled to a different peer
     for i, (e, o) in enumerate(zip(tr.events, tr.obs)):
         snap = o["snap"]
         secondary = sec[i]
+        if e["ev"] == "recv":
+            cb0 = conn_of(tr.obs[i - 1]["snap"], e["cid"]) if i else None
+            for fr in tr.frames[i]:
+                if cb0 and not cb0[1] and fr["cmd"] == "CE" and not fr["req"] and fr["origin"][0] == "Present" \
+                        and fr["origin"][1].lower() != cb0[3]:
+                    foreign.add(fr["origin"][1].lower())
         closed |= set(o["closed"])
         live = {c[0]: c for c in snap["conns"]}
         for name, cid, reason, lc, ld in snap["peers"]:
@@ -365,19 +372,20 @@ def c13(tr, viol):
             if cid != -1:
                 had_conn.add(name)
                 if cid not in live:
-                    viol("peer-conn-live", case_of(tr, i), {"peer": name, "conn": cid},
+                    viol("peer-conn-live", case_of(tr, i, {"foreign_cea_peers": sorted(foreign)}), {"peer": name, "conn": cid},
                          what="peer.connection references a connection that is not in the node's tables")
                 elif live[cid] not in owned:
-                    viol("peer-conn-live", case_of(tr, i), {"peer": name, "conn": cid}, what="peer.connection references another peer's connection")
+                    viol("peer-conn-live", case_of(tr, i, {"foreign_cea_peers": sorted(foreign)}), {"peer": name, "conn": cid},
+                         what="peer.connection references another peer's connection")
             else:
                 # an inbound connection is the peer's once its CER has been accepted; a dialled one from the start
                 handshaken = [c for c in owned if c[3] == name and ((not c[1]) or c[2] in (2, 3, 4))]
                 if handshaken:
-                    viol("peer-conn-exactly-when-exists", case_of(tr, i, {"secondary_connections": sorted(secondary)}),
+                    viol("peer-conn-exactly-when-exists", case_of(tr, i, {"secondary_connections": sorted(secondary), "foreign_cea_peers": sorted(foreign)}),
                          {"peer": name, "live": [c[0] for c in handshaken]},
                          what="a live connection of the peer exists but peer.connection is None")
                 if name in had_conn and (reason == -1 or ld == -1):
-                    viol("reason-set", case_of(tr, i), {"peer": name, "reason": reason, "last_disconnect": ld},
+                    viol("reason-set", case_of(tr, i, {"foreign_cea_peers": sorted(foreign)}), {"peer": name, "reason": reason, "last_disconnect": ld},
                          what="peer's connection was removed but disconnect reason/time are not set")
         for cid in closed:
             if cid in live or cid in snap["half"] or cid in snap["sockpeers"]:
